@@ -1894,9 +1894,17 @@ impl NestedLoopJoinStream {
         }
 
         if active.pending_batches.is_empty() {
-            // No data at all — go directly to Done
+            // No (more) left data: either the left side has no rows at all, or the
+            // batch that hit the memory limit in the previous pass was the last one.
+            // Right-side output (unmatched / semi / mark rows) is deferred to the end
+            // of the last chunk in memory-limited mode, so it still has to be emitted.
             self.left_exhausted = true;
-            self.state = NLJState::Done;
+            if self.should_track_unmatched_right {
+                self.right_data = None;
+                self.state = NLJState::EmitGlobalRightUnmatched;
+            } else {
+                self.state = NLJState::Done;
+            }
             return ControlFlow::Continue(());
         }
 
